@@ -49,7 +49,7 @@ LEVEL_NOTE = ('Trusted: NumPy long-double arithmetic, Hypothesis, the '
               'whose products do not overflow the dtype; array weights '
               'strictly positive; sizes >= 1.')
 DESIGN_REF = 'DESIGN.md section 5, C02'
-BUDGET = {'quick': 4000, 'thorough': 90000}
+BUDGET = {'quick': 10000, 'thorough': 150000}
 TOLERANCES = {
     'formula': '|got - ref| <= (4 N + 64) * eps * M with N = number of scalar '
                'entries, eps = machine epsilon of the narrowest component '
@@ -72,8 +72,9 @@ ASSUMPTIONS = [
     'dtype (int8/uint8: |entries| <= 2, <= 7 entries); no wrap-around '
     'semantics are asserted; dist is not asserted on unsigned spaces (x - y '
     'wraps)',
-    'float data in +-1e3, generic exponents <= 7.25, so that |x|^p stays '
-    'inside float32 range',
+    'non-zero float entries have magnitude in [1e-3, 1e3] (smaller ones '
+    'are flushed to zero), generic exponents <= 7.25, so that |x|^p neither '
+    'overflows nor underflows in float32',
     'boundary-cell fractions are 1 (up to rounding) or differ from 1 by '
     '>= 0.25 (the library treats fractions within 1e-5 of 1 as 1)',
     'custom inner/norm/dist: three fixed named functions with closed forms; '
@@ -126,7 +127,7 @@ def _exponent(draw, weights=(5, 2, 2, 2)):
 
 
 @st.composite
-def _leaf_weighting(draw, shape, kind, custom=True):
+def _leaf_weighting(draw, shape, kind, custom=True, p2only=False):
     if kind == 'int':
         return None
     kinds = ['none', 'none', 'const', 'const']
@@ -138,12 +139,13 @@ def _leaf_weighting(draw, shape, kind, custom=True):
     wk = draw(st.sampled_from(kinds))
     if wk == 'custom':
         return {'type': 'custom',
-                'which': draw(st.sampled_from(['inner', 'norm', 'dist']))}
+                'which': 'inner' if p2only else draw(st.sampled_from(
+                    ['inner', 'norm', 'dist']))}
     return draw(vs.weightings(shape, (wk,)))
 
 
 @st.composite
-def _tensor_leaf(draw, kind, size=None, dtype=None):
+def _tensor_leaf(draw, kind, size=None, dtype=None, p2only=False):
     dtype = dtype or draw(st.sampled_from(DTYPES[kind]))
     narrow = dtype in ('int8', 'uint8')
     if size is None:
@@ -151,8 +153,9 @@ def _tensor_leaf(draw, kind, size=None, dtype=None):
                                     else vs.SIZE_STRATA))
     shape = list(draw(vs.shapes_for_size(
         size, max_ndim=3 if size < 1000 else 2)))
-    w = draw(_leaf_weighting(shape, kind, custom=size < 1000))
-    if w is not None and w['type'] == 'custom':
+    w = draw(_leaf_weighting(shape, kind, custom=size < 1000,
+                             p2only=p2only))
+    if p2only or (w is not None and w['type'] == 'custom'):
         p = 2.0
     else:
         p = draw(_exponent())
@@ -177,7 +180,7 @@ def _nob_pairs(nob, ndim):
 
 
 @st.composite
-def _discr_leaf(draw, kind, dtype=None, small=False):
+def _discr_leaf(draw, kind, dtype=None, small=False, p2only=False):
     dtype = dtype or draw(st.sampled_from(DTYPES[kind]))
     narrow = dtype in ('int8', 'uint8')
     large = (not small and kind != 'int' and
@@ -217,12 +220,13 @@ def _discr_leaf(draw, kind, dtype=None, small=False):
         if draw(st.integers(0, 2)) == 0 else None
     sd = {'kind': 'discr', 'min': mins, 'max': maxs, 'shape': list(shape),
           'nodes_on_bdry': nob, 'dtype': dtype,
-          'exponent': draw(_exponent((5, 2, 1, 2))), 'weighting': w}
+          'exponent': 2.0 if p2only else draw(_exponent((5, 2, 1, 2))),
+          'weighting': w}
     return sd
 
 
 @st.composite
-def _coords_leaf(draw, kind, dtype=None):
+def _coords_leaf(draw, kind, dtype=None, p2only=False):
     """Partition given by coordinate vectors and limits: arbitrary boundary
     cell fractions (uniform) or a non-uniform grid."""
     dtype = dtype or draw(st.sampled_from(DTYPES[kind]))
@@ -268,15 +272,20 @@ def _coords_leaf(draw, kind, dtype=None):
         if draw(st.integers(0, 2)) == 0 else None
     return {'kind': 'discr_coords', 'coords': coords, 'min': mins,
             'max': maxs, 'shape': shape, 'uniform': all_uniform,
-            'dtype': dtype, 'exponent': draw(_exponent((5, 2, 1, 2))),
+            'dtype': dtype,
+            'exponent': 2.0 if p2only else draw(_exponent((5, 2, 1, 2))),
             'weighting': w}
 
 
 @st.composite
 def _pspace(draw, kind, depth):
     """Recursive product space, length 0-4, power / non-power."""
-    dtype_mode = draw(st.sampled_from(['same', 'same', 'same', 'mixed']))
+    dtype_mode = draw(st.sampled_from(['same', 'same', 'mixed']))
     fixed_dtype = draw(st.sampled_from(DTYPES[kind]))
+    # half of the product spaces are Hilbert spaces throughout (exponent 2
+    # and an inner product at every level), the others mix exponents and
+    # custom norms / distances freely
+    p2only = draw(st.integers(0, 2)) > 0
 
     def leaf():
         dt = fixed_dtype
@@ -294,15 +303,15 @@ def _pspace(draw, kind, depth):
             narrow = dt in ('int8', 'uint8')
             size = draw(st.sampled_from([1, 2, 3] if narrow else
                                         [1, 2, 3, 5, 99, 100, 101]))
-            return draw(_tensor_leaf(lk, size=size, dtype=dt))
+            return draw(_tensor_leaf(lk, size=size, dtype=dt, p2only=p2only))
         if which == 'discr':
-            return draw(_discr_leaf(lk, dtype=dt, small=True))
-        return draw(_coords_leaf(lk, dtype=dt))
+            return draw(_discr_leaf(lk, dtype=dt, small=True, p2only=p2only))
+        return draw(_coords_leaf(lk, dtype=dt, p2only=p2only))
 
     def rec(d):
         if d == 0:
             return leaf()
-        n = draw(st.sampled_from([0, 1, 2, 2, 3, 3, 4]))
+        n = draw(st.sampled_from([0] + [1, 2, 2, 3, 3, 4] * 3))
         power = draw(st.booleans())
         sd = {'kind': 'pspace'}
         if power:
@@ -316,7 +325,7 @@ def _pspace(draw, kind, depth):
                 sd['field'] = 'complex' if kind == 'cplx' else 'real'
         wk = draw(st.sampled_from(['none', 'none', 'const', 'array',
                                    'array', 'custom']))
-        sd['exponent'] = draw(_exponent())
+        sd['exponent'] = 2.0 if p2only else draw(_exponent())
         if wk == 'none':
             sd['weighting'] = None
         elif wk == 'const':
@@ -326,8 +335,9 @@ def _pspace(draw, kind, depth):
             sd['weighting'] = {'type': 'array', 'data': draw(st.lists(
                 vs.float_values(positive=True), min_size=n, max_size=n))}
         else:
-            sd['weighting'] = {'type': 'custom', 'which': draw(
-                st.sampled_from(['inner', 'norm', 'dist']))}
+            sd['weighting'] = {'type': 'custom', 'which': 'inner' if p2only
+                               else draw(st.sampled_from(['inner', 'norm',
+                                                          'dist']))}
             sd['exponent'] = 2.0
         return sd
 
@@ -348,6 +358,10 @@ def _space(draw):
     if sk == 'tensor':
         return kind, draw(_tensor_leaf(kind))
     if sk == 'discr':
+        if kind == 'int' and draw(st.integers(0, 2)) > 0:
+            # (most integer discretizations with boundary nodes only
+            # reproduce known finding C02-K3)
+            return kind, draw(_tensor_leaf(kind))
         return kind, draw(_discr_leaf(kind))
     if sk == 'coords':
         return kind, draw(_coords_leaf(kind))
@@ -429,6 +443,9 @@ def _tame(elem, zero=False):
             arr[...] = np.sign(arr) * (np.abs(arr) % 3)
         elif arr.dtype.kind in 'iu':
             arr[...] = np.sign(arr) * (np.abs(arr) % 10)
+        else:
+            # no denormal-range entries: |x|^p must not underflow in float32
+            arr[np.abs(arr) < 1e-3] = 0
 
 
 def _assign(dst, src):
@@ -604,7 +621,13 @@ def _check_formulas(space, sd, node, x, y, xv, yv, ctx, unsigned, top):
         ctx.strata.add('inner-absent-checked')
 
     # ---- dist ------------------------------------------------------------
-    if not unsigned:
+    if not node['has_dist']:
+        status, got = _call(lambda: space.dist(x, y), 'dist', site, region)
+        if status != 'absent':
+            raise Violation('C02|absence|dist|{}|{}'.format(site, region),
+                            'dist cannot be defined here but returned {!r}'
+                            ''.format(got))
+    elif not unsigned:
         status, got = _call(lambda: space.dist(x, y), 'dist', site, region)
         if status == 'absent':
             raise Violation('C02|not-offered|dist|{}|{}'.format(site, region),
@@ -828,13 +851,13 @@ def run_case(desc):
     if w is not None and w.get('type') == 'custom':
         level = 'pspace' if sd['kind'] == 'pspace' else 'tensor'
         fn = spacex.custom_func(level, w['which'])
-        if w['which'] == 'inner':
+        ok = True
+        if w['which'] == 'inner' and node['has_inner']:
             ok = space.inner(x, y) == fn(x, y)
-        elif w['which'] == 'norm':
+        elif w['which'] == 'norm' and node['has_norm']:
             ok = space.norm(x) == float(fn(x))
-        else:
-            st_, direct = _call(lambda: fn(x, y), 'custom', site, region)
-            ok = st_ == 'absent' or space.dist(x, y) == float(direct)
+        elif w['which'] == 'dist' and not unsigned:
+            ok = space.dist(x, y) == float(fn(x, y))
         if not ok:
             viol('custom-pass-through', 'space.{0}(...) differs from the '
                  'custom {0} function'.format(w['which']))
